@@ -333,6 +333,22 @@ func entityOrder(m *gtfsrt.FeedMessage) string {
 
 func c04Harness(nPairs int, extras bool) Harness { return c04HarnessV(nPairs, extras, 0) }
 
+var c04LaterMessageCache []byte
+
+// c04LaterMessage: vehicles without descriptor naming trips, and vehicles with ids: parsed AFTER the message under
+// study and before its result is judged - a result belongs to the caller, whatever is parsed next.
+func c04LaterMessage() []byte {
+	if c04LaterMessageCache == nil {
+		m := newFeed(cp(&tsAlphabet[0]))
+		for i := 0; i < 3; i++ {
+			m.Entity = append(m.Entity, &gtfsrt.FeedEntity{Id: sp(fmt.Sprintf("later-vp%d", i)), Vehicle: &gtfsrt.VehiclePosition{Trip: &gtfsrt.TripDescriptor{TripId: sp(fmt.Sprintf("LATER-T%d", i))}, StopId: sp(fmt.Sprintf("LATER-S%d", i))}})
+			m.Entity = append(m.Entity, &gtfsrt.FeedEntity{Id: sp(fmt.Sprintf("later-tu%d", i)), TripUpdate: &gtfsrt.TripUpdate{Trip: &gtfsrt.TripDescriptor{TripId: sp(fmt.Sprintf("LATER-U%d", i))}, Vehicle: &gtfsrt.VehicleDescriptor{Id: sp(fmt.Sprintf("LATER-V%d", i))}}})
+		}
+		c04LaterMessageCache = marshalFeed(m)
+	}
+	return c04LaterMessageCache
+}
+
 func c04HarnessV(nPairs int, extras bool, variant int) Harness {
 	return func(c *Ctx) {
 		am := genAssocV(c, nPairs, extras, false, variant)
@@ -355,6 +371,17 @@ func c04HarnessV(nPairs int, extras bool, variant int) Harness {
 		}
 		c.Steps(len(am.msg.Entity))
 		c.Outcome(dumpRealtime(r, rtDumpOpts{links: true, sortVehicles: true}))
+		// where the message has a vehicle without identifier, another message is parsed before the result is
+		// judged: what the links of this result lead to is still this result
+		for _, ap := range am.pairs {
+			if ap.vd == nil {
+				if _, err, ok := parseRT(c, c04LaterMessage(), &gtfs.ParseRealtimeOptions{}); !ok || err != nil {
+					harnessBug("later message: %v", err)
+				}
+				c.Witness("result_judged_after_a_later_parse")
+				break
+			}
+		}
 		claimedTrips := map[int]bool{}
 		claimedVehicles := map[int]bool{}
 		for i, ap := range am.pairs {
